@@ -91,11 +91,19 @@ class PyCdlibIO(io.RawIOBase):
         Read up to readsize bytes at the current offset, going from extent to
         extent as necessary, and advance the offset.
         """
+        # (The file object underneath may return less than it was asked for
+        # at any time; only an empty read means that there is no more.)
         if len(self._extents) == 1:
             self._fp.seek(self._startpos + self._offset)
-            data = self._fp.read(readsize)
-            self._offset += len(data)
-            return data
+            pieces = []
+            while readsize > 0:
+                data = self._fp.read(readsize)
+                if not data:
+                    break
+                pieces.append(data)
+                self._offset += len(data)
+                readsize -= len(data)
+            return b''.join(pieces)
 
         datalist = []
         while readsize > 0:
@@ -110,7 +118,7 @@ class PyCdlibIO(io.RawIOBase):
             datalist.append(data)
             self._offset += len(data)
             readsize -= len(data)
-            if len(data) < thisread:
+            if not data:
                 break
         return b''.join(datalist)
 
